@@ -5,7 +5,7 @@ from gen_http import Request, Header, Chunk
 
 HARNESS = "rx_driver"
 LEAN_MODULES = ["ViaProofs.C02"]
-LEMMA_MODULES = ['ViaProofs.Frag.Lines', 'ViaProofs.Frag.Headers', 'ViaProofs.Frag.Compose', 'ViaProofs.C01', 'ViaProofs.C05', 'ViaProofs.Trans.RL', 'ViaProofs.Trans.FL', 'ViaProofs.Trans.CH']
+LEMMA_MODULES = ['ViaProofs.Frag.Lines', 'ViaProofs.Frag.Headers', 'ViaProofs.Frag.Compose', 'ViaProofs.C01', 'ViaProofs.C05', 'ViaProofs.Trans.RL', 'ViaProofs.Trans.FL', 'ViaProofs.Trans.CH', 'ViaProofs.Trans.MH']
 REQUIRED_THEOREMS = ['Via.C02_method_at_limit', 'Via.C02_method_beyond', 'Via.C02_uri_at_limit', 'Via.C02_uri_beyond', 'Via.C02_ws_before_target', 'Via.C02_content_length_invalid', 'Via.C02_content_length_too_large', 'Via.C02_content_length_at_limit', 'Via.C02_trace_with_body', 'Via.C02_trace_proposes_405', 'Via.C02_missing_host']
 LEVEL = "proof"
 RULE = ("requests obtained from a well-formed one by ONE violating change of a known class (method/target length, version "
@@ -14,7 +14,7 @@ RULE = ("requests obtained from a well-formed one by ONE violating change of a k
         "construction, plus the at-limit twin that must be accepted; x partitions (whole, byte-wise, every single cut, "
         "structural cuts, cut right after the offending byte) x configurations; non-trivial = more than one read; "
         "distinct = distinct (class, config, bytes, partition)")
-TRUSTED_BASE = ["tools/cxx2lean.py (translator of the parse_char state machines of RL, FL, CH from the current C++ into Lean; the model is proved equal to the translation in ViaProofs/Trans)", "Lean 4.33 kernel", "axioms: propext, Classical.choice, Quot.sound at most",
+TRUSTED_BASE = ["tools/cxx2lean.py (translator of the parse_char / parse state machines and of message_headers::parse: RL, FL, CH from the current C++ into Lean; the model is proved equal to the translation in ViaProofs/Trans)", "Lean 4.33 kernel", "axioms: propext, Classical.choice, Quot.sound at most",
                 "rx_driver harness + via_model driver", "strtol modelled as exact conversion with overflow -> -1"]
 ASSUMPTIONS = ["411 Length Required is inherently read-dependent (a head followed by nothing is a complete body-less request); "
                "it is checked only where body bytes share the read with the end of the head",
